@@ -458,7 +458,21 @@ func ReadPMT(r io.Reader, pid int) (PMT, error) {
 	var err error
 	var pmt PMT
 
-	pmtAcc := packet.NewAccumulator(PmtAccumulatorDoneFunc)
+	// Other sections may precede the PMT section in the payload. When a packet
+	// boundary falls between two sections PmtAccumulatorDoneFunc is already
+	// satisfied, so keep accumulating until a PMT section that lists streams
+	// has arrived.
+	doneFunc := func(b []byte) (bool, error) {
+		done, err := PmtAccumulatorDoneFunc(b)
+		if err != nil || !done {
+			return done, err
+		}
+		if p, perr := NewPMT(b); perr == nil && len(p.Pids()) == 0 {
+			return false, nil
+		}
+		return true, nil
+	}
+	pmtAcc := packet.NewAccumulator(doneFunc)
 	done := false
 
 	for !done {
@@ -480,7 +494,7 @@ func ReadPMT(r io.Reader, pid int) (PMT, error) {
 			}
 			if len(pmt.Pids()) == 0 {
 				done = false
-				pmtAcc = packet.NewAccumulator(PmtAccumulatorDoneFunc)
+				pmtAcc = packet.NewAccumulator(doneFunc)
 				continue
 			}
 			done = true
